@@ -425,14 +425,10 @@ Fixpoint kids_marks (f : path -> res marks) (ks : list path) (acc : marks) : res
                                           (m_pre acc ++ m_pre m))
   end.
 
-(* format_accounts::mark_accounts *)
-Fixpoint mark (fuel : nat) (ord : bool) (cp : comm -> Z) (o : opts) (ps : list posting)
-         (a : path) : res marks :=
-  do km <- match fuel with
-           | O => Ok (mkMarks 0 0 [])
-           | S f => kids_marks (mark f ord cp o ps) (children (map p_acct ps) a)
-                               (mkMarks 0 0 [])
-           end;
+(* format_accounts::mark_accounts: the decision for one account, given what its children
+   returned (km) *)
+Definition mark_node (ord : bool) (cp : comm -> Z) (o : opts) (ps : list posting)
+           (a : path) (km : marks) : res marks :=
   let flat := o_flat o in
   let vis := visited o ps a in
   let v := m_visited km in
@@ -451,6 +447,15 @@ Fixpoint mark (fuel : nat) (ord : bool) (cp : comm -> Z) (o : opts) (ps : list p
       Ok (mkMarks 1 (if shown then 1 else d) ((a, shown) :: m_pre km))
     else Ok (mkMarks v d ((a, false) :: m_pre km))
   end.
+
+Fixpoint mark (fuel : nat) (ord : bool) (cp : comm -> Z) (o : opts) (ps : list posting)
+         (a : path) : res marks :=
+  do km <- match fuel with
+           | O => Ok (mkMarks 0 0 [])
+           | S f => kids_marks (mark f ord cp o ps) (children (map p_acct ps) a)
+                               (mkMarks 0 0 [])
+           end;
+  mark_node ord cp o ps a km.
 
 Record brow : Type := mkBrow {
   b_acct  : path;
@@ -518,3 +523,87 @@ Definition own_lazy_twice (ord : bool) (o : opts) (ps : list posting) (a : path)
   do r1 <- amount_call ord (mkSelf VVoid None) (acct_lposts o ps a);
   do r2 <- amount_call ord (fst r1) (snd r1);
   Ok (sd_total (fst r2)).
+
+(* ------------------------------- how a balance line is laid out: account_t::partial_name
+   (account.cc:216-232) and get_depth_spacer (account.cc:326-343).  Both walk from the parent
+   towards the master account and treat an ancestor as a displayed level when
+       children_with_flags(TO_DISPLAY) > 1  ||  has_xflags(TO_DISPLAY);
+   the name of a line is what lies below its nearest such ancestor, its indentation is two
+   blanks per such ancestor.  `m` is the pre-order list of (account, TO_DISPLAY) that
+   mark_accounts leaves behind. *)
+Definition flag_of (m : list (path * bool)) (a : path) : bool :=
+  existsb (fun ab => snd ab && path_eqb (fst ab) a) m.
+
+(* account_t::children_with_flags(TO_DISPLAY): the children that are, or contain, an account
+   TO_DISPLAY *)
+Definition cwf (m : list (path * bool)) (all : list path) (a : path) : nat :=
+  length (filter (fun k => existsb (fun ab => snd ab && is_prefix k (fst ab)) m)
+                 (children all a)).
+
+Definition counted (m : list (path * bool)) (all : list path) (a : path) : bool :=
+  Nat.ltb 1 (cwf m all a) || flag_of m a.
+
+(* the walk `for (acct = parent; acct && acct->parent; acct = acct->parent)`: the ancestor of
+   length n, then n-1, ... down to 1; parametric in the level test `cnt` *)
+Fixpoint up_spacer (cnt : path -> bool) (n : nat) (a : path) : nat :=
+  match n with
+  | O => O
+  | S k => (if cnt (firstn n a) then 1 else 0) + up_spacer cnt k a
+  end.
+
+(* length of the nearest displayed-level ancestor (0 = none): where partial_name `break`s *)
+Fixpoint up_cut (cnt : path -> bool) (n : nat) (a : path) : nat :=
+  match n with
+  | O => O
+  | S k => if cnt (firstn n a) then n else up_cut cnt k a
+  end.
+
+Definition spacer_of (cnt : path -> bool) (a : path) : nat := up_spacer cnt (length a - 1) a.
+Definition partial_of (cnt : path -> bool) (a : path) : path :=
+  skipn (up_cut cnt (length a - 1) a) a.
+
+Record lrow : Type := mkLrow {
+  l_acct    : path;
+  l_spacer  : nat;       (* number of "  " units of %(depth_spacer) *)
+  l_partial : path       (* the segments %(partial_account(options.flat)) joins with ':' *)
+}.
+
+(* the lines of `bal` as laid out by the default format:
+   %(!options.flat ? depth_spacer : "") and partial_account(options.flat) *)
+Definition bal_layout (ord : bool) (cp : comm -> Z) (o : opts) (ps : list posting)
+  : res (list lrow) :=
+  do m <- mark (max_depth ps) ord cp o ps [];
+  let cnt := counted (m_pre m) (map p_acct ps) in
+  Ok (map (fun a => if o_flat o then mkLrow a O a
+                    else mkLrow a (spacer_of cnt a) (partial_of cnt a))
+          (map fst (filter (fun ab => snd ab && disp_pred o (fst ab)) (m_pre m)))).
+
+(* reading the tree back: a stack of the last full name seen at each level; a line at level
+   l > 0 is named by the line at level l-1 above it plus its partial name *)
+Definition set_level (n : nat) (x : path) (S : list path) : list path :=
+  firstn n S ++ [x].
+
+Definition read_line (S : list path) (lvl : nat) (pn : path) : path * list path :=
+  let full := match lvl with
+              | O => pn
+              | Datatypes.S l => nth l S [] ++ pn
+              end in
+  (full, set_level lvl full S).
+
+Fixpoint read_tree (S : list path) (rows : list (nat * path)) : list path :=
+  match rows with
+  | [] => []
+  | (lvl, pn) :: rows' => let (full, S') := read_line S lvl pn in full :: read_tree S' rows'
+  end.
+
+(* what reading the tree back relies on: every displayed level (an ancestor that
+   partial_name / get_depth_spacer stop at or count) is itself a printed line.  Computed by
+   the driver for every case (Proofs: layout_reads_back needs it as hypothesis). *)
+Definition layout_ok (ord : bool) (cp : comm -> Z) (o : opts) (ps : list posting) : res bool :=
+  do m <- mark (max_depth ps) ord cp o ps [];
+  let cnt := counted (m_pre m) (map p_acct ps) in
+  Ok (forallb (fun ab => match fst ab with
+                         | [] => true
+                         | _ => implb (cnt (fst ab))
+                                      (flag_of (m_pre m) (fst ab) && disp_pred o (fst ab))
+                         end) (m_pre m)).
